@@ -928,7 +928,8 @@ func (p *proxyObject) __isCompatibleDescriptor(extensible bool, desc *PropertyDe
 		}
 
 		if desc.IsData() != !current.accessor {
-			return desc.Configurable != FLAG_FALSE
+			// a non-configurable property cannot change its kind
+			return false
 		}
 
 		if desc.IsData() && !current.accessor {
